@@ -1,7 +1,10 @@
 """C05 - native npy cache: exact, transparent, crash-safe (DESIGN.md section 4, C05).
 
 Tie T+D: (a) the ordered file effects of a real `save` (unlink / np.savez / touch, traced by wrapping the
-library calls) must equal `Femio.C05.saveSteps Cfg.fixed`; (b) random histories read | save X | crash X@k
+library calls, per object and save_mesh_only, over a directory in which every cache file already exists) must be a
+plan accepted by the model's executable test `Femio.C05.GoodMid` - the hypothesis of the `*_plan` theorems, which hold
+for EVERY order of the effects between the removal and the re-creation of the sentinel; whether the traced order also
+equals `saveSteps Cfg.fixed` is recorded, not required; (b) random histories read | save X | crash X@k
 (optionally torn inside the next np.savez) on a real temp directory: after every operation the directory
 (per cache file: absent / torn / written from which object) and what a read returned are compared with the
 directory machine.  Crash points are injected without touching /repo: the harness wraps numpy.savez,
@@ -20,7 +23,8 @@ from . import meshgen as mg
 
 PROP = 'C05'
 LEAN_MODULES = ['Femio.Props.C05', 'Femio.Props.C05K']
-THEOREMS = ['C05_full_save', 'C05_crash_inv', 'C05_save_inv', 'C05_read_inv', 'C05_history_inv', 'C05_crash_safe',
+THEOREMS = ['C05_full_save_plan', 'C05_crash_inv_plan', 'C05_history_inv_plan', 'C05_crash_safe_plan', 'mid_good',
+            'C05_full_save', 'C05_crash_inv', 'C05_save_inv', 'C05_read_inv', 'C05_history_inv', 'C05_crash_safe',
             'C05_cache_transparent', 'C05_load_complete_save', 'C05_crash_counterexample_upstream',
             'C05_stale_counterexample_upstream', 'split_join', 'C05_keys_attr_roundtrip', 'C05_keys_roundtrip',
             'C05_keys_elements_roundtrip', 'C05_keys_elemental_collection_roundtrip',
@@ -343,6 +347,47 @@ def match_returned(dg, objs):
     return None
 
 
+_FULL = {}
+
+
+def trace_plan(ctx, fd, mo):
+    """the ordered effects of fd.save(save_mesh_only=mo) over a directory in which every cache file exists"""
+    if 'fd' not in _FULL:
+        import random
+        _FULL['fd'] = make_obj(random.Random(5), 9, has_nodal_extra=True, has_elemental=True, has_constraints=True,
+                               types=['tet'])[0]
+    d = ctx.tmp / 'plan'
+    if d.exists():
+        shutil.rmtree(d)
+    d.mkdir(parents=True)
+    tr = []
+    with contextlib.redirect_stdout(io.StringIO()):
+        _FULL['fd'].save(d)
+        with effects(d, trace=tr):
+            fd.save(d, save_mesh_only=bool(mo))
+    shutil.rmtree(d, ignore_errors=True)
+    return tr
+
+
+def enc_plan(tr):
+    return f'{len(tr)} ' + ' '.join(f'{k} {f}' for k, f in tr)
+
+
+def plan_good(ctx, tag, fl, mo, tr, case):
+    """ask the model whether the traced plan satisfies the hypothesis of the *_plan theorems"""
+    if any(f not in FILES for _k, f in tr):
+        ctx.disagree('save() touches a femio_* file the model does not know', case, tr, None)
+        return False
+    rep = ctx.driver.ask(f'c05.good {tag} {fl[0]} {fl[1]} {fl[2]} {mo} {enc_plan(tr)}').split()
+    if rep[0] != 'ok':
+        raise RuntimeError('driver: ' + ' '.join(rep))
+    ctx.count('plan:' + ('good' if rep[1] == '1' else 'NOT-good'))
+    if rep[1] != '1':
+        ctx.disagree('the traced effects of save() are not a plan accepted by GoodMid (sentinel removed first, created last, '
+                     'not touched in between; every data file ends up written by this save or removed)', case, tr, 'GoodMid = false')
+    return rep[1] == '1'
+
+
 def run_history(ctx, hid, ops_fixed=None):
     from femio import FEMData
     r = ctx.rng
@@ -360,6 +405,14 @@ def run_history(ctx, hid, ops_fixed=None):
     refs = {t: ref_file_digests(fd) for t, fd in objs_fd.items()}
     model_dir = ['a'] * 7
     model_on = True        # after a disagreement the history continues on the real code (oracle only)
+    plans = {}
+
+    def plan(t, mo):
+        if (t, mo) not in plans:
+            tr = trace_plan(ctx, objs_fd[t], mo)
+            plans[(t, mo)] = (tr, plan_good(ctx, t, objs[t][1], mo, tr, {'object': t, 'mesh_only': mo,
+                                                                          'flags': list(objs[t][1])}))
+        return plans[(t, mo)]
     n_ops = r.randint(1, ctx.n(6, 10)) if ops_fixed is None else len(ops_fixed)
     hist = []
     for step in range(n_ops):
@@ -416,12 +469,16 @@ def run_history(ctx, hid, ops_fixed=None):
             def obj(t):
                 return f'{t} {objs[t][1][0]} {objs[t][1][1]} {objs[t][1][2]}'
             md = ' '.join(model_dir)
+            tr, good = plan(1, 0) if op[0] == 'read' else plan(op[1], op[2])
+            if not good:
+                model_on = False
+                continue
             if op[0] == 'read':
-                line = f'c05.step 1 1 {md} read {obj(1)}'
+                line = f'c05.gstep {md} read {obj(1)} {enc_plan(tr)}'
             elif op[0] == 'save':
-                line = f'c05.step 1 1 {md} save {obj(op[1])} {op[2]}'
+                line = f'c05.gstep {md} save {obj(op[1])} {op[2]} {enc_plan(tr)}'
             else:
-                line = f'c05.step 1 1 {md} crash {obj(op[1])} {op[2]} {op[3]} {op[4]}'
+                line = f'c05.gstep {md} crash {obj(op[1])} {op[2]} {op[3]} {op[4]} {enc_plan(tr)}'
             rep = ctx.driver.ask(line).split()
             if rep[0] != 'ok':
                 raise RuntimeError('driver: ' + ' '.join(rep))
@@ -567,24 +624,24 @@ def key_tie(ctx, fd):
 
 
 def trace_tie(ctx):
-    """tie T: the ordered effects of a real complete save = saveSteps Cfg.fixed (per flag combination)"""
+    """tie T: the ordered effects of a real complete save, for every combination of empty / non-empty optional groups and
+    save_mesh_only, are a plan accepted by GoodMid; whether it is also the order of `saveSteps Cfg.fixed` is recorded"""
     r = ctx.rng
-    for hn, he, hc, mo in [(1, 1, 1, 0), (1, 0, 0, 0), (0, 0, 0, 0), (1, 1, 0, 1), (0, 1, 1, 0)]:
-        fd, _ = make_obj(r, 7, has_nodal_extra=bool(hn), has_elemental=bool(he), has_constraints=bool(hc), types=['tet'],
-                         drop_node_entry=True)
-        d = ctx.tmp / f't{hn}{he}{hc}{mo}'
-        d.mkdir()
-        tr = []
-        with contextlib.redirect_stdout(io.StringIO()), effects(d, trace=tr):
-            fd.save(d, save_mesh_only=bool(mo))
-        f = flags(fd)
-        ctx.case(('trace', hn, he, hc, mo), sample={'flags': f, 'mesh_only': mo, 'effects': tr}, nontrivial=True)
-        ctx.count('trace-tie')
-        if ctx.driver is not None:
-            rep = ctx.driver.ask(f'c05.steps 1 1 7 {f[0]} {f[1]} {f[2]} {mo}').split()
-            ms = [(rep[2 + 2 * i], rep[3 + 2 * i]) for i in range(int(rep[1]))]
-            if ms != tr:
-                ctx.disagree('order of file effects of save()', {'flags': f, 'mesh_only': mo}, tr, ms)
+    for hn in (0, 1):
+        for he in (0, 1):
+            for hc in (0, 1):
+                for mo in (0, 1):
+                    fd, _ = make_obj(r, 7, has_nodal_extra=bool(hn), has_elemental=bool(he), has_constraints=bool(hc),
+                                     types=['tet'], drop_node_entry=True)
+                    tr = trace_plan(ctx, fd, mo)
+                    f = flags(fd)
+                    ctx.case(('trace', hn, he, hc, mo), sample={'flags': f, 'mesh_only': mo, 'effects': tr}, nontrivial=True)
+                    ctx.count('trace-tie')
+                    if ctx.driver is not None:
+                        plan_good(ctx, 7, f, mo, tr, {'flags': f, 'mesh_only': mo})
+                        rep = ctx.driver.ask(f'c05.steps 1 1 7 {f[0]} {f[1]} {f[2]} {mo}').split()
+                        ms = [(rep[2 + 2 * i], rep[3 + 2 * i]) for i in range(int(rep[1]))]
+                        ctx.count('plan-order:' + ('same-as-saveSteps' if ms == tr else 'other-than-saveSteps'))
 
 
 def exhaustive_second_save(ctx):
